@@ -31,8 +31,14 @@ ASSUMPTIONS = [
     "Python objects are modelled by what the container code can observe of them: str(o), int(o) (only query() "
     "uses it), whether o is a class, whether a stored == comparison with a str can succeed; str(int) is computed "
     "in Lean, str(float/None/bytes/bool) is pre-rendered by the harness",
-    "aliasing is not modelled: the harness passes a deep copy wherever Python would share a FIXContainer "
-    "(group items given as instances); nested items are addressed by path, not by a held reference",
+    "the Lean model is value-semantic: 'a container changes only through its own operations' is NOT a theorem but an "
+    "assumption exercised at run time – the generators pass the SAME list / dict / item-container objects to several "
+    "operations and containers, mutate those arguments on the caller's side afterwards, keep several containers alive, "
+    "copy / deepcopy / pickle them, replace values while iterating, and every live container is compared with the model "
+    "after every step (correspondence and oracle). The one sharing Python itself defines – a FIXContainer instance given "
+    "as a group item is held by reference – is kept out of the value model by never mutating an object that is held in "
+    "two places (such operations are skipped); `get_group_list()` returns the live internal list (not exercised as a "
+    "mutation channel)",
     "FIXMessage instances used as group items (their __repr__ differs from __str__) are outside the model",
     "pickle: default object pickling of the instance dict is modelled as the identity and compared on the implementation",
     "CPython's int(str) for non-ASCII input is modelled from two character tables read off the running interpreter",
@@ -178,40 +184,48 @@ def parse_ref(r):
     return parts[0], path
 
 
-class RefItem:
-    """a group item given as a FIXContainer instance: a deep copy of the referenced live container"""
-
-    def __init__(self, ref):
-        self.ref = ref
+CALLER_OPS = ("listappend", "listpop", "listreverse", "dictset", "dictdel")
 
 
-def dict_to_py(jd, resolve):
-    """JSON dict literal [[key, value], …] -> real dict (later keys overwrite equal earlier ones, as in a literal).
-    value: object | {"list": [item…]}, item: {"dict": […]} | {"ref": "name/…"} | {"bad": obj}"""
-    d = {}
-    for k, v in jd:
-        key = to_py(k)
-        if isinstance(v, dict) and "list" in v:
-            d[key] = [item_to_py(i, resolve) for i in v["list"]]
-        else:
-            d[key] = to_py(v)
-    return d
-
-
-def item_to_py(i, resolve):
-    if "dict" in i:
-        return dict_to_py(i["dict"], resolve)
-    if "ref" in i:
-        tgt = resolve(i["ref"])
-        if tgt is None:
-            raise LookupError(i["ref"])
-        return _Copied(copy.deepcopy(tgt), i["ref"])
-    return _Bad(to_py(i["bad"]))
+def to_json(o):
+    """inverse of to_py"""
+    FTag = _lib()[2]
+    if isinstance(o, type):
+        for n, k in class_table().items():
+            if k is o:
+                return {"cls": n}
+        raise ValueError(o)
+    if isinstance(o, FTag):
+        return {"ftag": o.value}
+    if isinstance(o, enum.Enum):
+        return {"fmsg": o.value}
+    if isinstance(o, bool):
+        return {"bool": o}
+    if isinstance(o, int):
+        return {"i": o}
+    if isinstance(o, str):
+        return {"s": o}
+    if isinstance(o, float):
+        return {"float": repr(o)}
+    if o is None:
+        return {"none": 1}
+    if isinstance(o, bytes):
+        return {"bytes": o.hex()}
+    raise ValueError(o)
 
 
 class _Copied:
+    """a group item given as a FIXContainer instance: a deep copy of the referenced live container"""
+
     def __init__(self, obj, ref):
         self.obj, self.ref = obj, ref
+
+
+class _Shared:
+    """a group item that IS a live store object (no copy): Python shares it by reference"""
+
+    def __init__(self, obj, name):
+        self.obj, self.name = obj, name
 
 
 class _Bad:
@@ -219,10 +233,107 @@ class _Bad:
         self.obj = obj
 
 
+class _Persistent:
+    """a caller-side list / dict object that lives on between operations and is passed again (same object)"""
+
+    def __init__(self, real):
+        self.real = real
+
+
+_SUB = []
+
+
+def sub_class():
+    """a trivial FIXContainer subclass (the decoder passes subclass instances to add_group)"""
+    if not _SUB:
+        FIXContainer = _lib()[4]
+        k = type("_SubContainer", (FIXContainer,), {"__module__": __name__})
+        globals()["_SubContainer"] = k
+        _SUB.append(k)
+    return _SUB[0]
+
+
+def lit_to_py(spec, impl):
+    """dict-literal position: inline [[key, value], …] | {"newdict": name, "lit": […]} | {"usedict": name}
+    value: object | {"list": items-spec};  items-spec: [item…] | {"newlist": name, "items": […]} | {"uselist": name}
+    item: {"dict": lit} | {"ref": "name/…"[, "sub": true]} (deep copy) | {"share": name} (the live object itself)
+          | {"newdict"/"usedict": …} | {"bad": obj}"""
+    if isinstance(spec, dict):
+        if "usedict" in spec:
+            if spec["usedict"] not in impl.pdicts:
+                raise LookupError(spec["usedict"])
+            return _Persistent(impl.pdicts[spec["usedict"]])
+        w = lit_to_py(spec["lit"], impl)
+        _no_copies(w)
+        real = _unwrap(w)
+        impl.pdicts[spec["newdict"]] = real
+        return _Persistent(real)
+    d = {}
+    for k, v in spec:
+        key = to_py(k)
+        if isinstance(v, dict) and "list" in v:
+            d[key] = items_to_py(v["list"], impl)
+        else:
+            d[key] = to_py(v)
+    return d
+
+
+def items_to_py(spec, impl):
+    if isinstance(spec, dict):
+        if "uselist" in spec:
+            if spec["uselist"] not in impl.plists:
+                raise LookupError(spec["uselist"])
+            return _Persistent(impl.plists[spec["uselist"]])
+        w = [item_to_py(i, impl) for i in spec["items"]]
+        _no_copies(w)
+        real = _unwrap(w)
+        impl.plists[spec["newlist"]] = real
+        return _Persistent(real)
+    return [item_to_py(i, impl) for i in spec]
+
+
+def item_to_py(i, impl):
+    if "dict" in i:
+        return lit_to_py(i["dict"], impl)
+    if "newdict" in i or "usedict" in i:
+        return lit_to_py(i, impl)
+    if "share" in i:
+        o = impl.store.get(i["share"])
+        FIXMessage = _lib()[3]
+        if o is None or isinstance(o, FIXMessage):
+            raise LookupError(i["share"])
+        impl.sharing = True
+        return _Shared(o, i["share"])
+    if "ref" in i:
+        tgt = impl.resolve(i["ref"])
+        if tgt is None:
+            raise LookupError(i["ref"])
+        c = copy.deepcopy(tgt)
+        if i.get("sub") and type(c) is _lib()[4]:
+            c.__class__ = sub_class()
+        return _Copied(c, i["ref"])
+    return _Bad(to_py(i["bad"]))
+
+
+def _no_copies(w):
+    """persistent caller-side objects hold only dicts, shared live objects and non-containers (an anonymous copy
+    would have no name in the model)"""
+    if isinstance(w, _Copied):
+        raise LookupError("copy inside a persistent argument")
+    if isinstance(w, dict):
+        for v in w.values():
+            _no_copies(v)
+    elif isinstance(w, list):
+        for v in w:
+            _no_copies(v)
+
+
 def _unwrap(x):
     """strip the harness wrappers before handing a structure to the implementation"""
-    if isinstance(x, _Copied) or isinstance(x, _Bad):
+    if isinstance(x, (_Copied, _Bad, _Shared)):
         return x.obj
+    if isinstance(x, _Persistent):
+        return x.real
     if isinstance(x, dict):
         return {k: _unwrap(v) for k, v in x.items()}
     if isinstance(x, list):
@@ -230,39 +341,83 @@ def _unwrap(x):
     return x
 
 
-def dict_toks(d):
+def _held_containers(x, acc):
+    """live container objects inside an argument structure (wrappers or real objects)"""
+    FIXContainer = _lib()[4]
+    if isinstance(x, _Shared):
+        acc.append(x.obj)
+    elif isinstance(x, _Persistent):
+        _held_containers(x.real, acc)
+    elif isinstance(x, FIXContainer):
+        acc.append(x)
+    elif isinstance(x, dict):
+        for v in x.values():
+            _held_containers(v, acc)
+    elif isinstance(x, list):
+        for v in x:
+            _held_containers(v, acc)
+    return acc
+
+
+def dict_toks(d, impl=None):
+    if isinstance(d, _Persistent):
+        d = d.real
     toks = ["{"]
     for k, v in d.items():
         toks.append(obj_tok(k))
-        if isinstance(v, list):
-            toks += ["["] + [t for i in v for t in item_toks(i)] + ["]"]
+        if isinstance(v, (list, _Persistent)):
+            toks += list_toks(v, impl)
         else:
             toks.append(val_tok(v))
     toks.append("}")
     return toks
 
 
-def item_toks(i):
+def list_toks(v, impl=None):
+    if isinstance(v, _Persistent):
+        v = v.real
+    return ["["] + [t for i in v for t in item_toks(i, impl)] + ["]"]
+
+
+def item_toks(i, impl=None):
+    FIXContainer = _lib()[4]
+    if isinstance(i, _Persistent):
+        i = i.real
     if isinstance(i, dict):
-        return dict_toks(i)
+        return dict_toks(i, impl)
     if isinstance(i, _Copied):
         return ["@" + i.ref]
+    if isinstance(i, _Shared):
+        return ["@" + i.name]
+    if isinstance(i, FIXContainer):  # a real object inside a persistent argument: it is a live store object
+        return ["@" + impl.name_of(i)]
     return ["bad"]
 
 
 # ---------------------------------------------------------------------------------------------
 # canonical structure dump of implementation objects (same text as Driver/Container.lean dumpCont)
 # ---------------------------------------------------------------------------------------------
-def dump_val(v):
+def _conts(v):
+    """the container items of a group value (a defective implementation may let foreign objects in)"""
+    return [g for g in v.groups if hasattr(g, "tags")]
+
+
+def dump_val(v, path=()):
     if isinstance(v, str):
         return "s" + hx(v)
     if isinstance(v, type):
         return cls_tok(v)
-    return "[" + "".join(dump_cont(g) for g in v.groups) + "]"
+    return "[" + "".join(dump_cont(g, path) for g in v.groups) + "]"
 
 
-def dump_cont(c):
-    return "{" + "".join(hx(t) + "=" + dump_val(v) + ";" for t, v in c.tags.items()) + "}"
+def dump_cont(c, path=()):
+    """structure dump; foreign objects and cycles (possible only with a defective implementation) are marked"""
+    if not hasattr(c, "tags"):
+        return "!" + type(c).__name__
+    if id(c) in path:
+        return "!cycle"
+    path = path + (id(c),)
+    return "{" + "".join(hx(t) + "=" + dump_val(v, path) + ";" for t, v in c.tags.items()) + "}"
 
 
 def dump_entry(o):
@@ -280,6 +435,46 @@ class Impl:
 
     def __init__(self):
         self.store = {}
+        self.plists, self.pdicts = {}, {}  # caller-side list / dict objects that are passed more than once
+        self.sharing = False  # has any live object / persistent argument been handed over yet
+
+    def name_of(self, obj):
+        for n, o in self.store.items():
+            if o is obj:
+                return n
+        raise LookupError("object is not a live store entry")
+
+    def multiplicity(self):
+        """id -> number of places (store roots and group items) that hold the object"""
+        cnt = {}
+
+        def walk(o, depth):
+            cnt[id(o)] = cnt.get(id(o), 0) + 1
+            if depth > 8:
+                return
+            for v in o.tags.values():
+                if not isinstance(v, (str, type)):
+                    for g in _conts(v):
+                        walk(g, depth + 1)
+
+        for o in self.store.values():
+            walk(o, 0)
+        return cnt
+
+    def exclusive(self, o):
+        return not self.sharing or self.multiplicity().get(id(o), 0) <= 1
+
+    def reaches(self, src, tgt, depth=0):
+        if src is tgt:
+            return True
+        if depth > 8:
+            return True
+        for v in src.tags.values():
+            if not isinstance(v, (str, type)):
+                for g in _conts(v):
+                    if self.reaches(g, tgt, depth + 1):
+                        return True
+        return False
 
     def resolve(self, r):
         name, path = parse_ref(r)
@@ -291,6 +486,8 @@ class Impl:
             if v is None or isinstance(v, (str, type)) or not (0 <= i < len(v.groups)):
                 return None
             o = v.groups[i]
+            if not hasattr(o, "tags"):
+                return None
         return o
 
     def dumpall(self):
@@ -310,7 +507,7 @@ class Impl:
             try:
                 r = f()
             except RecursionError:
-                raise
+                return "err Recursion"
             except Exception as e:  # noqa
                 return "err " + kind_of(e)
             return okfmt(r)
@@ -321,16 +518,71 @@ class Impl:
                 raise LookupError(r)
             return o
 
+        def need_own(r, args=None):
+            """the target of a mutator: held in exactly one place (a shared object changes for every holder – Python
+            reference semantics, outside the value model), and not reachable from the arguments (no cycles)"""
+            o = need(r)
+            if not self.exclusive(o):
+                raise LookupError("shared object as mutation target")
+            for h in _held_containers(args, []) if args is not None else []:
+                if self.reaches(h, o):
+                    raise LookupError("cycle")
+            return o
+
         if cmd == "reset":
-            self.store = {}
+            self.store, self.plists, self.pdicts, self.sharing = {}, {}, {}, False
             return "ok", "cont.reset"
+        if cmd in CALLER_OPS:
+            # the caller mutates an argument object it passed (or will pass) to the container: no model step
+            if cmd in ("listappend", "listpop", "listreverse"):
+                if op[1] not in self.plists:
+                    raise LookupError(op[1])
+                lst = self.plists[op[1]]
+                if cmd == "listappend":
+                    w = item_to_py(op[2], self)
+                    _no_copies(w)
+                    lst.append(_unwrap(w))
+                elif cmd == "listpop":
+                    if lst:
+                        lst.pop()
+                else:
+                    lst.reverse()
+            else:
+                if op[1] not in self.pdicts:
+                    raise LookupError(op[1])
+                d = self.pdicts[op[1]]
+                if cmd == "dictset":
+                    d[to_py(op[2])] = to_py(op[3])
+                else:
+                    d.pop(to_py(op[2]), None)
+            return "pong", "ping"
+        if cmd == "iterreplace":
+            # mutate while iterating: replacing values during `for t, v in c.items()` is legal for a dict
+            o = need_own(op[1])
+            v = to_py(op[2])
+            lines, replies = [], []
+
+            def f():
+                for t, old in o.items():
+                    if isinstance(old, str):
+                        lines.append(f"cont.set {op[1]} {obj_tok(t)} {val_tok(v)} 1")
+                        o.set(t, v, replace=True)
+                        replies.append("ok")
+
+            r = guard(f)
+            if not lines:
+                return "pong", "ping"
+            if r != "ok":
+                replies.append(r)
+                lines.append("ping")
+            return replies, lines
         if cmd == "new":
             self.store[op[1]] = FIXContainer()
             return "ok", "cont.new " + op[1]
         if cmd in ("init", "initmsg"):
             name = op[1]
-            d = dict_to_py(op[-1], self.resolve)
-            line_d = " ".join(dict_toks(d))
+            d = lit_to_py(op[-1], self)
+            line_d = " ".join(dict_toks(d, self))
             real = _unwrap(d)
             if cmd == "init":
                 line = f"cont.init {name} {line_d}"
@@ -369,32 +621,32 @@ class Impl:
             o.msg_type = mt
             return "ok", f"cont.setmsgtype {op[1]} {hx(str(mt))}"
         if cmd in ("set", "setitem"):
-            o = need(op[1])
+            o = need_own(op[1])
             t, v, rep = to_py(op[2]), to_py(op[3]), bool(op[4]) if cmd == "set" else False
             line = f"cont.set {op[1]} {obj_tok(t)} {val_tok(v)} {1 if rep else 0}"
             if cmd == "setitem":
                 return guard(lambda: o.__setitem__(t, v)), line
             return guard(lambda: o.set(t, v, replace=rep) if rep else o.set(t, v)), line
         if cmd == "del":
-            o = need(op[1])
+            o = need_own(op[1])
             t = to_py(op[2])
             return guard(lambda: o.__delitem__(t)), f"cont.del {op[1]} {obj_tok(t)}"
         if cmd == "addgroup":
-            o = need(op[1])
             t = to_py(op[2])
-            item = item_to_py(op[3], self.resolve)
+            item = item_to_py(op[3], self)
+            o = need_own(op[1], item)
             idx = op[4]
-            toks = " ".join(item_toks(item))
+            toks = " ".join(item_toks(item, self))
             real = _unwrap(item)
             line = f"cont.addgroup {op[1]} {obj_tok(t)} {-1 if idx is None else idx} {toks}"
             if idx is None:
                 return guard(lambda: o.add_group(t, real)), line
             return guard(lambda: o.add_group(t, real, idx)), line
         if cmd == "setgroup":
-            o = need(op[1])
             t = to_py(op[2])
-            items = [item_to_py(i, self.resolve) for i in op[3]]
-            toks = " ".join(["["] + [x for i in items for x in item_toks(i)] + ["]"])
+            items = items_to_py(op[3], self)
+            o = need_own(op[1], items)
+            toks = " ".join(list_toks(items, self))
             real = _unwrap(items)
             return guard(lambda: o.set_group(t, real)), f"cont.setgroup {op[1]} {obj_tok(t)} {toks}"
 
@@ -478,7 +730,10 @@ def run_sequences(seqs, drv=None):
     """Run sequences on the implementation, then the recorded lines on the model. Returns
     (evaluations, disagreements, stats, per-seq transcripts)."""
     lines, expect, owners = [], [], []
-    stats = {"ops": {}, "replies": {}, "lengths": {}, "max_depth": 0}
+    stats = {"ops": {}, "replies": {}, "lengths": {}, "max_depth": 0,
+             "aliasing": {"ops_with_reused_argument_object": 0, "ops_with_shared_item_object": 0, "caller_side_mutations": 0,
+                          "states_with_an_object_held_twice": 0, "max_tags": 0, "max_group_items": 0}}
+    al = stats["aliasing"]
     for si, seq in enumerate(seqs):
         impl = Impl()
         lines.append("cont.reset")
@@ -486,9 +741,29 @@ def run_sequences(seqs, drv=None):
         owners.append((si, -1))
         for oi, op in enumerate(seq):
             reply, line = impl.run(op)
+            if isinstance(line, list):  # one Python call that is several model steps (mutation while iterating)
+                for r1, l1 in zip(reply[:-1], line[:-1]):
+                    lines.append(l1)
+                    expect.append(r1)
+                    owners.append((si, oi))
+                reply, line = reply[-1], line[-1]
             lines.append(line)
             expect.append(reply)
             owners.append((si, oi))
+            js = json.dumps(op)
+            if '"uselist"' in js or '"usedict"' in js:
+                al["ops_with_reused_argument_object"] += 1
+            if '"share"' in js:
+                al["ops_with_shared_item_object"] += 1
+            if op[0] in CALLER_OPS:
+                al["caller_side_mutations"] += 1
+            if impl.sharing and any(v > 1 for v in impl.multiplicity().values()):
+                al["states_with_an_object_held_twice"] += 1
+            for o in impl.store.values():
+                al["max_tags"] = max(al["max_tags"], len(o.tags))
+                for v in o.tags.values():
+                    if not isinstance(v, (str, type)):
+                        al["max_group_items"] = max(al["max_group_items"], len(v.groups))
             lines.append("cont.dumpall")
             expect.append(impl.dumpall())
             owners.append((si, oi))
@@ -525,7 +800,7 @@ ODD_TAGS = [J_s("01"), J_s(" 1"), J_s("-1"), J_i(-1), J_i(0), J_s("1.0"), {"floa
             J_s("١"), J_s("1_0"), J_s(""), J_s("+2"), J_s("2 "), {"none": 1}, {"bytes": "33"}, J_s("a=b|c"),
             J_s("٢ "), J_s("1__0"), J_i(10 ** 30), {"fmsg": "A"}, {"fmsg": "1"}, J_s("\x1c1"), J_s("\ud800")]
 STR_VALUES = ["a", "b", "c", "", "a|2=b", "x=y", ">", "[", "]", "1=>[2=x]", "#err#", "a, 2=b", "<class 'int'>", "0=>[]",
-              "héllo", "5", "A", "1", " ", "|", "a|b"]
+              "héllo", "5", "A", "1", " ", "|", "a|b", "\x01", "a\nb", "x" * 300, "8=FIX.4.4\x019=5"]
 OTHER_VALUES = [J_i(5), J_i(-3), J_i(0), {"float": "1.5"}, {"float": "1e22"}, {"float": "nan"}, {"fmsg": "A"}, {"fmsg": "D"},
                 {"ftag": "1"}, {"none": 1}, {"bytes": "78"}, {"bool": True}, J_i(10 ** 25)]
 CLS_VALUES = [{"cls": n} for n in ("TagNotFoundError", "RepeatingTagError", "ValueError", "int", "str", "KeyboardInterrupt", "DuplicatedTagError")]
@@ -555,6 +830,12 @@ class Gen:
     def dictlit(self, depth, refs, maxn=4):
         r = self.r
         out = []
+        if depth == 0 and r.random() < 0.012:
+            # a big one: dozens of tags, a group with ≥ 10 items (two-digit counts)
+            tags = r.sample(range(100, 900), r.randint(25, 45))
+            out = [[J_i(t) if r.random() < 0.5 else J_s(str(t)), self.value()] for t in tags]
+            out.insert(r.randrange(len(out)), [J_i(99), {"list": [{"dict": [[J_i(1), J_s(str(i))]]} for i in range(r.randint(10, 14))]}])
+            return out
         for _ in range(r.choice([0, 1, 1, 2, 2, 3, maxn])):
             if depth < 3 and r.random() < 0.22:
                 out.append([self.tag(), {"list": self.items(depth + 1, refs)}])
@@ -568,7 +849,7 @@ class Gen:
         if x < 0.03 and not self.clean_only:
             return {"bad": r.choice([J_s("x"), J_i(5), {"none": 1}])}
         if x < 0.2 and refs:
-            return {"ref": r.choice(refs)}
+            return {"ref": r.choice(refs), "sub": True} if r.random() < 0.2 else {"ref": r.choice(refs)}
         return {"dict": self.dictlit(depth, refs, 3)}
 
     def items(self, depth, refs):
@@ -587,7 +868,8 @@ def live_refs(impl, include_msgs=True):
         for t, v in o.tags.items():
             if not isinstance(v, (str, type)):
                 for i, g in enumerate(v.groups):
-                    walk(g, name, path + [(t, i)], depth + 1)
+                    if hasattr(g, "tags"):
+                        walk(g, name, path + [(t, i)], depth + 1)
 
     for n, o in impl.store.items():
         walk(o, n, [], 0)
@@ -598,17 +880,70 @@ def present_tags(o):
     return [J_s(t) for t in o.tags.keys()]
 
 
-def gen_sequence(rng, maxlen=30, odd=0.12, cls=0.06, clean_only=False):
-    """generate while executing on the implementation (so that operations mostly address existing tags)"""
+def gen_sequence(rng, maxlen=30, odd=0.12, cls=0.06, clean_only=False, alias=0.12):
+    """generate while executing on the implementation (so that operations mostly address existing tags).
+    `alias`: how often argument objects (lists, dicts, item containers) are REUSED between operations / containers
+    and mutated by the caller afterwards"""
     g = Gen(rng, odd, cls, clean_only)
     FIXMessage = _lib()[3]
     impl = Impl()
     seq = []
     names = ["a", "b", "c", "d"]
+    counter = [0]
 
     def emit(op):
         impl.run(op)
         seq.append(op)
+
+    def fresh(prefix):
+        counter[0] += 1
+        return f"{prefix}{counter[0]}"
+
+    def holders(exclude_root=None):
+        return [n for n, o in impl.store.items() if not isinstance(o, FIXMessage) and n != exclude_root]
+
+    def shared_item(exclude_root=None):
+        hs = holders(exclude_root)
+        if hs and rng.random() < 0.7:
+            return {"share": rng.choice(hs)}
+        if impl.pdicts and rng.random() < 0.5:
+            return {"usedict": rng.choice(list(impl.pdicts))}
+        return {"newdict": fresh("D"), "lit": g.dictlit(3, [], 2)}
+
+    def plist_spec(exclude_root=None):
+        """a caller-side list object: a new one, or one that was passed before"""
+        if impl.plists and rng.random() < 0.55:
+            return {"uselist": rng.choice(list(impl.plists))}
+        kind = rng.random()
+        n = rng.choice([0, 1, 1, 2, 2, 3])
+        items = []
+        for _ in range(n):
+            hs = holders(exclude_root)
+            if hs and (kind < 0.45 or (kind < 0.8 and rng.random() < 0.5)):
+                items.append({"share": rng.choice(hs)})
+            else:
+                items.append({"dict": g.dictlit(3, [], 2)})
+        return {"newlist": fresh("L"), "items": items}
+
+    def pdict_spec(exclude_root=None):
+        if impl.pdicts and rng.random() < 0.5:
+            return {"usedict": rng.choice(list(impl.pdicts))}
+        lit = [[g.tag(), g.value()] for _ in range(rng.choice([0, 1, 2, 3]))]
+        if rng.random() < 0.6:
+            lit.insert(rng.randrange(len(lit) + 1), [g.tag(), {"list": plist_spec(exclude_root)}])
+        return {"newdict": fresh("D"), "lit": lit}
+
+    def caller_op():
+        if impl.plists and (not impl.pdicts or rng.random() < 0.6):
+            L = rng.choice(list(impl.plists))
+            y = rng.random()
+            if y < 0.6:
+                hs = holders()
+                it = {"share": rng.choice(hs)} if hs and rng.random() < 0.6 else {"dict": g.dictlit(3, [], 2)}
+                return ["listappend", L, it]
+            return ["listpop", L] if y < 0.85 else ["listreverse", L]
+        D = rng.choice(list(impl.pdicts))
+        return ["dictset", D, g.tag(), g.value()] if rng.random() < 0.7 else ["dictdel", D, g.tag()]
 
     # constructors
     for n in names[: rng.choice([1, 2, 2, 3])]:
@@ -621,11 +956,29 @@ def gen_sequence(rng, maxlen=30, odd=0.12, cls=0.06, clean_only=False):
             emit(["initmsg", n, rng.choice([{"fmsg": "D"}, J_s("8"), {"fmsg": "A"}]), g.dictlit(0, [])])
     if not impl.store:
         emit(["new", "a"])
-    n_ops = rng.randint(3, maxlen)
+    if rng.random() < alias * 2:
+        # small containers that will be handed over as ready-made group items
+        for n in ("p", "q")[: rng.choice([1, 2])]:
+            emit(["init", n, [[g.tag(), g.value()] for _ in range(rng.choice([0, 1, 2]))]])
+    n_ops = rng.randint(3, maxlen if rng.random() > 0.03 else maxlen * 3)
     while len(seq) < n_ops:
+        if (impl.plists or impl.pdicts) and rng.random() < alias * 0.25:
+            emit(caller_op())
+            continue
         refs = live_refs(impl)
-        ref, obj, depth = rng.choice(refs) if rng.random() < 0.45 else refs[0] if rng.random() < 0.3 else rng.choice([x for x in refs if x[2] == 0])
+        mult = impl.multiplicity() if impl.sharing else {}
+        own = [x for x in refs if mult.get(id(x[1]), 0) <= 1] or refs  # objects held in one place only may be mutated
+        ref, obj, depth = rng.choice(own) if rng.random() < 0.45 else own[0] if rng.random() < 0.3 else rng.choice([x for x in own if x[2] == 0] or own)
+        root = parse_ref(ref)[0]
         item_refs = [r for r, o, d in refs if not isinstance(o, FIXMessage)]
+        if rng.random() < alias * 0.35:
+            # hand a caller-side list / dict object (possibly one that was passed before) to a container
+            if rng.random() < 0.65:
+                emit(["setgroup", ref, g.tag(), plist_spec(root)])
+            else:
+                free = [n for n in names if n not in impl.store] or names[1:]
+                emit(["init", rng.choice(free), pdict_spec()])
+            continue
 
         def t():
             pt = present_tags(obj)
@@ -670,9 +1023,11 @@ def gen_sequence(rng, maxlen=30, odd=0.12, cls=0.06, clean_only=False):
         elif x < 65:
             idx = rng.choice([None, None, -1, 0, 1, 2, -2, -3, 5, -7, 100, -100])
             y = rng.random()
-            emit(["addgroup", ref, gt() if y < 0.6 else (g.tag() if y < 0.85 else t()), g.item(depth + 1, item_refs), idx])
+            it = shared_item(root) if rng.random() < alias else g.item(depth + 1, item_refs)
+            emit(["addgroup", ref, gt() if y < 0.6 else (g.tag() if y < 0.85 else t()), it, idx])
         elif x < 69:
-            emit(["setgroup", ref, t() if rng.random() < 0.5 else g.tag(), g.items(depth + 1, item_refs)])
+            its = plist_spec(root) if rng.random() < alias * 2.5 else g.items(depth + 1, item_refs)
+            emit(["setgroup", ref, t() if rng.random() < 0.5 else g.tag(), its])
         elif x < 72:
             emit(["grouplist", ref, gt()])
         elif x < 76:
@@ -682,7 +1037,7 @@ def gen_sequence(rng, maxlen=30, odd=0.12, cls=0.06, clean_only=False):
             tagj, cands = gt(), []
             v = obj.tags.get(str(to_py(tagj)))
             if v is not None and not isinstance(v, (str, type)):
-                for it in v.groups:
+                for it in _conts(v):
                     for k2, v2 in it.tags.items():
                         cands.append((J_s(k2), v2))
             if cands and rng.random() < 0.8:
@@ -719,7 +1074,12 @@ def gen_sequence(rng, maxlen=30, odd=0.12, cls=0.06, clean_only=False):
             emit(["copy", ref, rng.choice(free), rng.choice(["pickle", "pickle", "deepcopy"])])
         elif x < 98.5:
             free = [n for n in names if n not in impl.store] or names[1:]
-            emit(["init", rng.choice(free), g.dictlit(0, item_refs)])
+            if rng.random() < alias * 2.5:
+                emit(["init", rng.choice(free), pdict_spec()])
+            elif rng.random() < 0.15:
+                emit(["iterreplace", ref, g.value()])
+            else:
+                emit(["init", rng.choice(free), g.dictlit(0, item_refs)])
         else:
             msgs = [n for n, o in impl.store.items() if isinstance(o, FIXMessage)]
             if msgs:
@@ -731,8 +1091,10 @@ def gen_sequence(rng, maxlen=30, odd=0.12, cls=0.06, clean_only=False):
     return seq
 
 
-def literal_of(obj):
+def literal_of(obj, depth=0):
     """a dict literal (JSON form) that rebuilds the content of a live container; None if it holds class objects"""
+    if depth > 6:
+        return None
     out = []
     for t, v in obj.tags.items():
         if isinstance(v, type):
@@ -741,8 +1103,8 @@ def literal_of(obj):
             out.append([J_s(t), J_s(v)])
         else:
             items = []
-            for g in v.groups:
-                sub = literal_of(g)
+            for g in _conts(v):
+                sub = literal_of(g, depth + 1)
                 if sub is None:
                     return None
                 items.append({"dict": sub})
@@ -854,8 +1216,10 @@ def pyint_correspondence(ctx, drv):
     # 1. every code point, four contexts, run-length summaries per block
     lines, exp = [], []
     block = 0x2000
+    # quick tier: the bare code point over the whole range (digit / invalid), the three neighbour contexts (leading,
+    # trailing, inner position) over U+0000..U+33FF, which holds every whitespace code point; thorough: everything
     for ctxn, mk in enumerate((lambda c: c, lambda c: c + "1", lambda c: "1" + c, lambda c: "1" + c + "1")):
-        for lo in range(0, 0x110000, block):
+        for lo in range(0, 0x110000 if (ctxn == 0 or ctx.tier == "thorough") else 0x3400, block):
             runs, cur, k = [], None, 0
             for cp in range(lo, lo + block):
                 s = _pyint(mk(chr(cp)))
@@ -930,13 +1294,15 @@ def correspondence(ctx):
     n_rand = ctx.n(4000, 40000)
     for i in range(n_rand):
         mode = i % 10
-        if mode < 6:
+        if mode < 5:
             seqs.append(gen_sequence(ctx.rng))
-        elif mode < 8:
+        elif mode < 7:
             seqs.append(gen_sequence(ctx.rng, odd=0.35, cls=0.15))
+        elif mode < 8:
+            seqs.append(gen_sequence(ctx.rng, odd=0.03, cls=0.02, alias=0.5))  # argument objects reused / mutated by the caller
         else:
-            seqs.append(gen_sequence(ctx.rng, clean_only=True))
-    total, d_seq, stats, _ = 0, [], {"ops": {}, "replies": {}, "lengths": {}}, None
+            seqs.append(gen_sequence(ctx.rng, clean_only=True, alias=0.12 if mode == 8 else 0.4))
+    total, d_seq, stats, _ = 0, [], {"ops": {}, "replies": {}, "lengths": {}, "aliasing": {}}, None
     CH = 2000
     distinct = set()
     for lo in range(0, len(seqs), CH):
@@ -949,6 +1315,8 @@ def correspondence(ctx):
         for k in ("ops", "replies", "lengths"):
             for a, b in st[k].items():
                 stats[k][a] = stats[k].get(a, 0) + b
+        for a, b in st["aliasing"].items():
+            stats["aliasing"][a] = max(stats["aliasing"].get(a, 0), b) if a.startswith("max_") else stats["aliasing"].get(a, 0) + b
         # distinct non-trivial evaluations: (state before, operation line) with a non-empty store state
         prev = ""
         for line, e in zip(lines, expect):
@@ -986,7 +1354,8 @@ def correspondence(ctx):
         "distinct_nontrivial": len(distinct),
         "rule": "an evaluation = one operation line or one full-state dump compared between FIXContainer/FIXMessage and the Lean "
         "model (plus int()/str() comparisons); distinct_nontrivial counts distinct (store state before, operation) pairs in which "
-        "the store holds at least one non-empty container; int(str): all 0x110000 code points in 4 contexts (exhaustive) and all "
+        "the store holds at least one non-empty container; int(str): all 0x110000 code points alone and (quick: U+0000..33FF, thorough: all) "
+        "in 3 neighbour contexts, and all "
         f"strings of length ≤ {ctx.n(4, 5)} over a 14-letter critical alphabet ({n_strs} strings)",
         "samples": samples,
         "exhaustive": False,
@@ -998,6 +1367,7 @@ def correspondence(ctx):
             "replies": dict(sorted(stats["replies"].items(), key=lambda kv: -kv[1])[:60]),
             "lengths": {str(k): v for k, v in sorted(stats["lengths"].items())},
             "int_str_comparisons": n_int,
+            "aliasing_and_sizes": stats["aliasing"],
         },
         "disagreements": dis,
     }
@@ -1168,22 +1538,128 @@ def _pykey(kj):
         return ("u", id(kj))
 
 
-def impl_canon(c):
+def impl_canon(c, path=()):
+    """nested (tag, value) structure of a live container; cycles (only a defective implementation can produce
+    them) are cut and marked"""
+    if id(c) in path:
+        return "!cycle"
+    path = path + (id(c),)
     out = []
     for t, v in c.tags.items():
         if isinstance(v, type):
             raise OutOfDomain("class value in implementation state")
-        out.append((t, v if isinstance(v, str) else [impl_canon(g) for g in v.groups]))
+        out.append((t, v if isinstance(v, str) else
+                    [impl_canon(g, path) if hasattr(g, "tags") else "!" + type(g).__name__ for g in v.groups]))
     return out
 
 
 def canon_dump(cn):
+    if isinstance(cn, str):
+        return cn
     return "{" + "".join(hx(t) + "=" + ("s" + hx(v) if isinstance(v, str) else "[" + "".join(canon_dump(g) for g in v) + "]") + ";" for t, v in cn) + "}"
+
+
+class Pools:
+    """the caller-side list / dict objects of a sequence, by VALUE: the reference reads what such an object
+    contains at the moment it is passed, and nothing the caller does to it later can matter"""
+
+    def __init__(self):
+        self.lists, self.dicts = {}, {}
+
+    # registration: {"newlist"/"newdict"} -> stored, replaced by a {"uselist"/"usedict"} reference
+    def norm_items(self, spec):
+        if isinstance(spec, dict):
+            if "uselist" in spec:
+                if spec["uselist"] not in self.lists:
+                    raise LookupError(spec["uselist"])
+                return spec
+            self.lists[spec["newlist"]] = [self.norm_item(i) for i in spec["items"]]
+            return {"uselist": spec["newlist"]}
+        return [self.norm_item(i) for i in spec]
+
+    def norm_item(self, i):
+        if "dict" in i:
+            return {"dict": self.norm_lit(i["dict"])}
+        if "newdict" in i or "usedict" in i:
+            return self.norm_lit(i)
+        return i
+
+    def norm_lit(self, spec):
+        if isinstance(spec, dict):
+            if "usedict" in spec:
+                if spec["usedict"] not in self.dicts:
+                    raise LookupError(spec["usedict"])
+                return spec
+            self.dicts[spec["newdict"]] = dedup_literal(self.norm_lit(spec["lit"]))
+            return {"usedict": spec["newdict"]}
+        return [[k, {"list": self.norm_items(v["list"])} if isinstance(v, dict) and "list" in v else v] for k, v in spec]
+
+    # expansion to the inline form
+    def items(self, spec):
+        if isinstance(spec, dict):
+            spec = self.lists[spec["uselist"]]
+        return [self.item(i) for i in spec]
+
+    def item(self, i):
+        if "dict" in i:
+            return {"dict": self.lit(i["dict"])}
+        if "usedict" in i:
+            return {"dict": self.lit(i)}
+        if "share" in i:
+            return {"ref": i["share"]}
+        if "ref" in i:
+            return {"ref": i["ref"]}
+        return i
+
+    def lit(self, spec):
+        if isinstance(spec, dict):
+            spec = self.dicts[spec["usedict"]]
+        return [[k, {"list": self.items(v["list"])} if isinstance(v, dict) and "list" in v else v] for k, v in spec]
+
+    def inline_op(self, op):
+        cmd = op[0]
+        if cmd in ("init", "initmsg"):
+            return op[:-1] + [self.lit(self.norm_lit(op[-1]))]
+        if cmd == "addgroup":
+            return op[:3] + [self.item(self.norm_item(op[3]))] + op[4:]
+        if cmd == "setgroup":
+            return op[:3] + [self.items(self.norm_items(op[3]))]
+        return op
+
+    def caller_op(self, op):
+        cmd = op[0]
+        if cmd in ("listappend", "listpop", "listreverse"):
+            if op[1] not in self.lists:
+                raise LookupError(op[1])
+            lst = self.lists[op[1]]
+            if cmd == "listappend":
+                lst.append(self.norm_item(op[2]))
+            elif cmd == "listpop":
+                if lst:
+                    lst.pop()
+            else:
+                lst.reverse()
+        else:
+            if op[1] not in self.dicts:
+                raise LookupError(op[1])
+            d = self.dicts[op[1]]
+            key = _pykey(op[2])
+            if cmd == "dictset":
+                for e in d:
+                    if _pykey(e[0]) == key:
+                        e[1] = op[3]
+                        break
+                else:
+                    d.append([op[2], op[3]])
+            else:
+                d[:] = [e for e in d if _pykey(e[0]) != key]
 
 
 class RefStore:
     def __init__(self):
         self.store = {}  # name -> [msg_type or None, RefCont]
+        self.pools = Pools()
+        self.last_op = None
 
     def resolve(self, r):
         name, path = parse_ref(r)
@@ -1208,12 +1684,26 @@ class RefStore:
     def run(self, op):
         """-> set of acceptable replies (strings as produced by Impl.run), or None = unspecified"""
         cmd = op[0]
+        self.last_op = op
+        if cmd in CALLER_OPS:
+            self.pools.caller_op(op)  # the caller's own business: no container may change
+            return {"pong"}
+        op = self.last_op = self.pools.inline_op(op)  # arguments are read by value at the moment of the call
         try:
             return self._run(cmd, op)
         except RefErr as e:
             return set(e.kinds)
 
     def _run(self, cmd, op):
+        if cmd == "iterreplace":
+            c = self.need(op[1])
+            v = ref_value(to_py(op[2]))
+            if not any(isinstance(x, str) for x in c.d.values()):
+                return {"pong"}
+            for k in c.d:
+                if isinstance(c.d[k], str):
+                    c.d[k] = v
+            return {"ok"}
         if cmd == "new":
             self.store[op[1]] = [None, RefCont()]
             return {"ok"}
@@ -1399,12 +1889,14 @@ def group_tags_of(op):
     return out
 
 
-def impl_keys_deep(o, acc):
+def impl_keys_deep(o, acc, depth=0):
+    if depth > 8:
+        return acc
     for t, v in o.tags.items():
         acc.append(t)
         if not isinstance(v, (str, type)):
-            for g in v.groups:
-                impl_keys_deep(g, acc)
+            for g in _conts(v):
+                impl_keys_deep(g, acc, depth + 1)
     return acc
 
 
@@ -1487,13 +1979,23 @@ def oracle_run(ops, all_failures=False):
             return done()
         want = ref.canon_all()
         fail = None
+        iop = ref.last_op
+        if isinstance(observed, list):
+            observed = observed[-1]
         if acceptable is not None and observed not in acceptable:
-            fail = {"signature": classify(op, acceptable, observed, impl, ref_before),
+            fail = {"signature": classify(iop, acceptable, observed, impl, ref_before),
                     "what": f"{op[0]} replied {observed}, the reference ordered map allows {sorted(acceptable)}",
                     "input": {"ops": ops[: i + 1]}, "expected": sorted(acceptable), "observed": observed}
         elif got != want:
-            fail = {"signature": classify(op, acceptable, observed, impl, ref_before, state_only=True),
-                    "what": f"after {op[0]} (reply {observed}) the containers differ from the reference ordered map",
+            changed = {k for k in set(got) | set(want) if got.get(k) != want.get(k)}
+            own = {parse_ref(iop[1])[0]} if len(iop) > 1 and isinstance(iop[1], str) and iop[0] not in CALLER_OPS else set()
+            if iop[0] == "copy":
+                own = {iop[2]}
+            sig = (f"C18-content-changed-without-own-operation:{iop[0]}" if changed - own
+                   else classify(iop, acceptable, observed, impl, ref_before, state_only=True))
+            fail = {"signature": sig,
+                    "what": f"after {op[0]} (reply {observed}) the containers {sorted(changed)} differ from the reference ordered map"
+                    + (" – a container changed although no operation addressed it" if changed - own else ""),
                     "input": {"ops": ops[: i + 1]}, "expected": {k: canon_dump(v[1]) for k, v in want.items()},
                     "observed": {k: canon_dump(v[1]) for k, v in got.items()}}
         if fail:
@@ -1506,7 +2008,7 @@ def oracle_run(ops, all_failures=False):
 def gen_oracle_sequence(rng, dirty):
     """clean stream: canonical tag spellings and clearly non-integer tags, values str/int/float/enum/None/bytes;
     dirty stream: adds the non-canonical decimal spellings"""
-    seq = gen_sequence(rng, maxlen=25, odd=0.0, cls=0.0, clean_only=True)
+    seq = gen_sequence(rng, maxlen=25, odd=0.0, cls=0.0, clean_only=True, alias=rng.choice([0.0, 0.12, 0.12, 0.5]))
     extra = [J_s("x"), {"float": "1.0"}, J_s("1.0"), {"none": 1}, J_s("")] + ([J_s("01"), J_s(" 1"), J_s("+2"), J_s("1_0"), J_s("١")] if dirty else [])
     out = []
     for op in seq:
@@ -1533,7 +2035,7 @@ def oracle(ctx, disagreements, broken):
         if isinstance(d.get("input"), dict) and "ops" in d["input"]:
             seqs.append(d["input"].get("shrunk_ops") or d["input"]["ops"])
             seqs.append(d["input"]["ops"])
-    n_clean = ctx.n(600, 4000) * (5 if broken else 1)
+    n_clean = ctx.n(500, 4000) * (5 if broken else 1)
     n_dirty = ctx.n(150, 800)
     for _ in range(n_clean):
         seqs.append(gen_oracle_sequence(ctx.rng, False))
